@@ -11,6 +11,7 @@ import (
 var vC06Entry = regexp.MustCompile(`^(\*\.|\.)?[a-z0-9-]+(\.[a-z0-9-]+)*(:([0-9]{1,5}|\*))?$`)
 var vC06Host = regexp.MustCompile(`^[a-z0-9.-]*(:[0-9]{0,5})?$`)
 
+// whitelist matching of absolute redirect targets equals the documented host/port rule
 // verif: unwind=9 strlen=12 concretize=6
 func vh_C06_abs() {
 	entry := ndString("entry")
